@@ -1,5 +1,6 @@
 import KitModel.Go.Prelude
 import KitModel.Spiffe
+import KitModel.SpiffeTA
 /-!
 Driver for property C19: `kitdrv C19` reads one request per line, answers one line per request.
 
@@ -101,11 +102,54 @@ def doRenew (l : Line) : String :=
     s!"reqs={reqs};served={served};timers={timers};pub={pub};writes={writes};mode={mode}"
   | _, _ => "error bad-script"
 
+/-! ### trust-bundle source (`ta ev=…`): events `cr` `cb` `ca` `cw` `file:<v>` (0 = garbage) `stop`
+`cx:i` `ret:i:b<v>|closed|ctx` `rret:err|nil` `q:i+j` -/
+
+def parseTaEv (w : String) : Option TA.Ev :=
+  match w.splitOn ":" with
+  | ["cr"] => some .callRun
+  | ["cb"] => some (.callBundle false)
+  | ["ca"] => some (.callBundle true)
+  | ["cw"] => some .callWatch
+  | ["stop"] => some .stop
+  | ["file", v] => v.toNat?.map fun n => .file (if n = 0 then .garbage else .ver n)
+  | ["cx", i] => i.toNat?.map .cancel
+  | ["ret", i, "closed"] => i.toNat?.map (.ret · .closed)
+  | ["ret", i, "ctx"] => i.toNat?.map (.ret · .ctx)
+  | ["ret", _, "wret"] => some .nop
+  | ["ret", i, r] =>
+    if r.startsWith "b" then
+      match i.toNat?, (r.drop 1).toString.toNat? with
+      | some i, some k => some (.ret i (.ok (some k)))
+      | _, _ => none
+    else none
+  | ["rret", "err"] => some (.runRet true)
+  | ["rret", "nil"] => some (.runRet false)
+  | ["q", p] =>
+    if p == "" then some (.quiet [])
+    else ((p.splitOn "+").mapM String.toNat?).map .quiet
+  | _ => none
+
+def showTaSt (s : TA.St) : String :=
+  s!"[run={(reprStr s.run).replace "Kit.Spiffe.TA.RunPc." ""} readers={s.readers} wPend={s.wPend} wHeld={s.wHeld} ready={s.ready} closed={s.closed} bundle={s.bundle} cons={s.cons.map fun c => (reprStr c).replace "Kit.Spiffe.TA." ""}]"
+
+def doTa (l : Line) : String :=
+  let ws := ((l.get? "ev").getD "").splitOn "," |>.filter (· ≠ "")
+  match ws.mapM parseTaEv with
+  | none => "error bad-event"
+  | some evs =>
+    match TA.accept evs with
+    | (none, m) => s!"accept states={m.length}"
+    | (some k, m) =>
+      let shown := " ".intercalate ((m.take 4).map showTaSt)
+      s!"reject k={k} ev={ws.getD k "?"} states={m.length} before={shown}"
+
 def handle (_ : Unit) (line : String) : Unit × String :=
   let l := parseLine line
   match l.op with
   | "lts" => ((), doLts l)
   | "renew" => ((), doRenew l)
+  | "ta" => ((), doTa l)
   | _ => ((), "error unknown-op")
 
 def main (_args : List String) : IO UInt32 := do
